@@ -396,6 +396,13 @@ ITEMS = location_types() + budget_types() + error_types() + [
              dict(after='let mut key_node = capture_node(self.ev)?;', text='lemma_knode_bounds(rk, 0);'),
              dict(before='let value_node = capture_node(self.ev)?;', ghost=True, text='let ghost rv = self.ev.rest();'),
              dict(after='let value_node = capture_node(self.ev)?;', text='lemma_knode_bounds(rv, 0);'),
+             # a key that is handed to the visitor is remembered: the merge flush (and the duplicate test) rely on it
+             dict(after='self.have_key = true;', nth=1, ghost=True, text='let ghost fpd = fingerprint;'),
+             dict(before='return Ok(Some(key_value));', nth=1, label='C03:delivered_key_is_remembered', props=['C03', 'C04'],
+                  text='assert(self.seen@.contains(fpd));'),
+             dict(after='self.have_key = true;', nth=2, ghost=True, text='let ghost fpd = fingerprint;'),
+             dict(before='return Ok(Some(key_value));', nth=2, label='C03:delivered_key_is_remembered', props=['C03', 'C04'],
+                  text='assert(self.seen@.contains(fpd));'),
              dict(before='if self.enqueue_next_merge_batch() {', nth=1, ghost=True, text='let ghost ms0 = self.merge_stack@; let ghost p0 = self.pending@;'),
              dict(after='if self.enqueue_next_merge_batch() {', nth=1, text='lemma_flush_step(ms0, p0);'),
              dict(before='if self.enqueue_next_merge_batch() {', nth=2, ghost=True, text='let ghost ms0 = self.merge_stack@; let ghost p0 = self.pending@;'),
